@@ -286,6 +286,36 @@ def judge_tvgbuild(ctx: common.Ctx, res: List[dict], stream: str = 'G-tvgbuild')
     return nd
 
 
+def judge_tvglang(ctx: common.Ctx, res: List[dict], stream: str = 'G-tvglang') -> int:
+    """Layer G, function level, path language: the record lists of ALL maximal paths of the graph
+    the real `create_variant_graph` built (enumerated by walking the dump, per frame active from
+    the start) against `Tvg.attachedSubs` of the Lean model's graph on the same transcript and
+    records — the list that `Props.C01.tvg_attached_subs_spec` proves to be the record lists of
+    the maximal paths and `tvg_create_variant_graph_attached_subs` proves to be every strictly
+    separated combination.  INTERNAL stream (a diff is a broken correspondence)."""
+    cases = []
+    for r in res:
+        tl = r.get('tvglang')
+        if tl:
+            if tl[1].startswith('skip:'):
+                ctx.count(stream, 'skipped_' + tl[1][5:].replace('-', '_'))
+            else:
+                cases.append((tl[0], tl[1], r))
+    if not cases:
+        return 0
+
+    def nontrivial(real: str) -> bool:
+        return '|' in real          # some path takes two or more records
+
+    nd = ctx.diff_stream(stream, cases, False, describe, nontrivial,
+                         'create_variant_graph: the maximal paths of the real graph differ from attachedSubs of the model')
+    ctx.count(stream, 'compared', len(cases))
+    ctx.count(stream, 'record_lists', sum(real.count(',') + real.count('=') for _l, real, _r in cases))
+    ctx.count(stream, 'single_frame_cases', sum(1 for _l, real, _r in cases if real.count(';') == 1))
+    ctx.count(stream, 'pool_input_ok', sum(1 for _l, real, _r in cases if real.startswith('in=1;')))
+    return nd
+
+
 def describe(r: dict) -> dict:
     d = dict(r.get('desc', {}))
     d.pop('tx_seq', None)
